@@ -1,4 +1,5 @@
 import UtilModel.RefCount.ConsProps
+import UtilModel.RefCount.ConsRelA
 open UtilModel UtilModel.RefCount UtilModel.RefCount.Cons
 #print axioms UtilModel.accepts_sound
 #print axioms UtilModel.accepted_satisfies
@@ -14,3 +15,5 @@ open UtilModel UtilModel.RefCount UtilModel.RefCount.Cons
 #print axioms RefCount.Cons.released_fires_iff
 #print axioms RefCount.Cons.wait_keeps_alive
 #print axioms RefCount.rel_not_while_held_inv
+#print axioms RefCount.Cons.r0_step
+#print axioms RefCount.Cons.c10_value_obs
